@@ -104,10 +104,10 @@ def order_pred(order):
 # ---------------------------------------------------------------------------------------------
 # finite alphabets: spectra (in SORTED direction order), shape (N, nf, nd)
 # ---------------------------------------------------------------------------------------------
-def seam_block(nf, nd):
+def seam_block(nf, nd, ncells=6):
     """<=6 cells: two frequency rows (the first two) x three direction columns around the seam (last, first, second)."""
     rows = [0, 1] if nf >= 2 else [0]
-    ncol = 6 // len(rows)
+    ncol = ncells // len(rows)
     cols = []
     for j in [nd - 1, 0, 1, nd - 2, 2, nd - 3]:
         if 0 <= j < nd and j not in cols:
@@ -135,8 +135,8 @@ def basis_spectra(nf, nd, alpha):
     return np.array(out)
 
 
-def product_spectra(nf, nd, alpha):
-    cells = seam_block(nf, nd)
+def product_spectra(nf, nd, alpha, ncells=6):
+    cells = seam_block(nf, nd, ncells)
     vals = gen.product_array(len(cells), alpha)
     out = np.full((vals.shape[0], nf, nd), float(min(alpha)))
     for c, (i, j) in enumerate(cells):
@@ -155,12 +155,15 @@ def single_spectra(nf, nd, alpha):
     return np.array([a, b, gen.distinct_values(nf, nd), 1.0 + fi * 3.0 + di[:, ::-1]])
 
 
-def batch_for(kind, nf, nd, alpha):
+def batch_for(kind, nf, nd, alpha, work=0):
+    """work = nf*nd*fw*dw bounds the memory of one call: the product block shrinks to 4 cells / 3 letters on the largest grids"""
     if kind == "singles":
         return single_spectra(nf, nd, alpha)
     b = basis_spectra(nf, nd, alpha)
     if kind == "full":
-        b = np.concatenate([b, product_spectra(nf, nd, alpha)], axis=0)
+        if len(alpha) > 3 and work > 1500:
+            alpha = alpha[:3]
+        b = np.concatenate([b, product_spectra(nf, nd, alpha, 6 if work <= 6000 else 4)], axis=0)
     if b.shape[0] % 2 == 1:
         b = np.concatenate([b, b[-1:] * 0.5], axis=0)
     return b
@@ -390,9 +393,9 @@ def run_call(cfg, E, fw, dw, ref=None):
 def dims_pred(dims, extra):
     names = list(extra) + ["freq", "dir"]
     dims = list(dims or names)
-    p = ["extra:" + ("+".join(extra) if extra else "none")]
+    p = [] if list(extra) == ["time", "site"] else ["extra:" + ("+".join(extra) if extra else "none")]
     if dims == names:
-        return p[0] + ",dims:canonical"
+        return ",".join(p)
     if dims.index("dir") < dims.index("freq"):
         p.append("dims:dir-before-freq")
     elif dims[-2:] != ["freq", "dir"]:
@@ -403,8 +406,8 @@ def dims_pred(dims, extra):
 
 
 def win_pred(fw, dw, nf, nd):
-    a = "fw=1" if fw == 1 else ("fw=nf" if fw == nf else "1<fw<nf")
-    b = "dw=1" if dw == 1 else ("dw=nd" if dw == nd else "1<dw<nd")
+    a = "fw=1" if fw == 1 else ("fw=nf>3" if (fw == nf and fw > 3) else "fw>1")
+    b = "dw=1" if dw == 1 else ("dw=nd>3" if (dw == nd and dw > 3) else "dw>1")
     return a + "," + b
 
 
@@ -412,6 +415,7 @@ def signature(cfg, clause, fw, dw, op="smooth"):
     nf, nd = len(cfg["f"]), len(cfg["dirs"])
     p = ["fullcircle" if cfg["circular"] else "partial", "nf=1" if nf == 1 else "nf>1", order_pred(cfg["order"]),
          dims_pred(cfg.get("dims"), cfg.get("extra", ["time", "site"])), win_pred(fw, dw, nf, nd)]
+    p = [x for x in p if x]
     if cfg.get("dtype", "float64") != "float64":
         p.append("dtype:" + cfg["dtype"])
     if cfg.get("cdtype", "f8") != "f8":
@@ -576,20 +580,20 @@ def partition_spectrum(nf, nd, dw, seed):
 PERM_SUBSET_4D = [("time", "site", "freq", "dir"), ("time", "site", "dir", "freq"), ("dir", "freq", "time", "site"),
                   ("freq", "dir", "time", "site"), ("time", "dir", "site", "freq"), ("dir", "time", "site", "freq"),
                   ("freq", "time", "dir", "site"), ("site", "time", "freq", "dir")]
-DIMS_QUICK = {("full4", 3), ("full5", 1), ("full8", 5), ("part_0_90", 3)}  # (direction grid, nf) explored over all dimension orders in quick
+DIMS_QUICK = {("full4", 3), ("full5", 1), ("full8", 5), ("part_0_90", 3), ("full3", 5), ("full9", 3), ("part_irregular", 5)}  # (direction grid, nf) explored over all dimension orders in quick
 CHUNKINGS = ({"site": 1, "time": 1}, {"freq": 2, "dir": 2}, {"dir": 3, "site": 1})
 
 
 def in_dims_subset(tier, gname, nf):
     if tier == "thorough":
-        return True
+        return not gname.startswith("full32")
     g = gname.split("_")[0] if gname.startswith("full") else gname
     return (g, nf) in DIMS_QUICK
 
 
 def orders_for(nd, tier):
     allo = stored_orders(nd, tier)
-    if tier == "thorough" or nd <= 8:
+    if (tier == "thorough" and nd <= 16) or nd <= 8:
         return allo
     keep = {"sorted", "rot1", "rot%d" % (nd // 2), "rot%d" % (nd - 1), "desc"}
     return [o for o in allo if o[0] in keep]
@@ -598,7 +602,7 @@ def orders_for(nd, tier):
 def shifts_for(nd, tier, first):
     if not first:
         return [1]
-    if tier == "thorough" or nd <= 5:
+    if (tier == "thorough" and nd <= 16) or nd <= 5:
         return list(range(1, nd))
     return sorted(set([1, nd // 2, nd - 1]))
 
@@ -611,7 +615,7 @@ def variants(tier, gname, nf, nd, fw, whole_degrees):
     V = []
     # stored direction order, canonical 4-D layout
     for oname, order in orders:
-        big = oname == "sorted" or (tier == "thorough" and oname in (rot1, "desc"))
+        big = oname in ("sorted", rot1, "desc")
         V.append(("orders", dict(order=order), "full" if big else "basis"))
     sub = in_dims_subset(tier, gname, nf)
     # extra dimensions in every position of the dimension order
@@ -621,7 +625,7 @@ def variants(tier, gname, nf, nd, fw, whole_degrees):
         p2 = list(itertools.permutations(["freq", "dir"]))
         for oname, order in orders:
             for p in p4:
-                if oname == rot1 or (oname in ("sorted", "desc") and (tier == "thorough" or p in PERM_SUBSET_4D)) or (tier == "thorough" and p in PERM_SUBSET_4D):
+                if oname == rot1 or (oname in ("sorted", "desc") and (tier == "thorough" or p in PERM_SUBSET_4D)) or (tier == "thorough" and nd <= 10 and p in PERM_SUBSET_4D):
                     V.append(("dims4", dict(order=order, dims=p), "basis"))
         for oname in ([rot1] if tier == "quick" else ["sorted", rot1, "desc"]):
             if oname not in omap:
@@ -675,21 +679,73 @@ def bump(d, k, n=1):
     d[k] = d.get(k, 0) + n
 
 
+FACTOR_DEFAULTS = (("chunks", None), ("api", "accessor"), ("cdtype", "f8"), ("dtype", "float64"), ("dims", None),
+                   ("extra", ["time", "site"]), ("order", None))
+
+
+def minimise(cfg, spec, fw, dw, clause, kind, kw):
+    """Reset one input factor at a time to its plainest value (then the windows to 1, else 3) while the same clause keeps failing on
+    the single spectrum, so that the signature names only the factors that matter. Returns (cfg, fw, dw) reduced, or None if the
+    single spectrum passes."""
+    def fails(c, a, b):
+        vs = replay(make_case(c, spec, a, b, kind=kind, **kw))
+        return any(v.signature.split("|")[1] == clause for v in vs)
+
+    cur = dict(cfg)
+    if not fails(cur, fw, dw):
+        return None
+    nd = len(cfg["dirs"])
+    for key, default in FACTOR_DEFAULTS:
+        if key == "chunks" and kind == "dask-equal":
+            continue
+        if key == "order":
+            default = list(range(nd))
+        have = cur.get(key, default)
+        have = list(have) if isinstance(have, tuple) else have
+        if have == default or (key == "dims" and have == list(cur.get("extra", ["time", "site"])) + ["freq", "dir"]):
+            continue
+        trial = dict(cur)
+        trial[key] = default
+        if key == "extra":
+            trial["dims"] = None
+        if fails(trial, fw, dw):
+            cur = trial
+    for small in (1, 3):
+        if fw > small and fails(cur, small, dw):
+            fw = small
+        if dw > small and fails(cur, fw, small):
+            dw = small
+    return cur, fw, dw
+
+
 def add_violations(res, seen, cfg, E, fw, dw, bad, kind, **kw):
-    """first failing spectrum per signature, confirmed by running replay() on that single spectrum"""
+    """first failing spectrum per signature, confirmed (and reduced to the factors that matter) on that single spectrum through replay()"""
+    clauses = [c for (_, c, _) in bad]
     for (i, clause, msg) in bad:
-        sig = signature(cfg, clause, fw, dw)
+        # a value that misses the window mean where the window fits may also leave the min/max band: one finding, not two
+        if clause == "window-bound:window-fits" and "window-mean" in clauses:
+            continue
+        if clause in ("non-negative", "constant") and any(c.startswith("window-") for c in clauses):
+            continue
+        raw = "raw:" + signature(cfg, clause, fw, dw)
+        if raw in seen:
+            continue
+        seen.add(raw)
+        spec = E[i if i is not None else min(len(E) - 1, 4)]
+        small = minimise(cfg, spec, fw, dw, clause, kind, kw)
+        if small is None:
+            case = make_case(cfg, spec, fw, dw, kind=kind, **kw)
+            res["violations"].append(Violation(PROP, "smooth|batched-only|" + clause, "seen only inside a batch: " + msg,
+                                               dict(case, batch_note="single-spectrum replay passes")))
+            continue
+        scfg, sfw, sdw = small
+        sig = signature(scfg, clause, sfw, sdw)
         if sig in seen:
             continue
         seen.add(sig)
-        case = make_case(cfg, E[i if i is not None else min(len(E) - 1, 4)], fw, dw, kind=kind, **kw)
-        vs = replay(case)
-        vs = [v for v in vs if v.signature == sig] or vs
-        if vs:
-            res["violations"].append(vs[0])
-        else:
-            res["violations"].append(Violation(PROP, "smooth|batched-only|" + clause, "seen only inside a batch: " + msg,
-                                               dict(case, batch_note="single-spectrum replay passes")))
+        case = make_case(scfg, spec, sfw, sdw, kind=kind, **kw)
+        vs = [v for v in replay(case) if v.signature == sig]
+        res["violations"].append(vs[0] if vs else Violation(PROP, sig, msg, case))
 
 
 def run_pair(it):
@@ -699,7 +755,7 @@ def run_pair(it):
     alpha = gen.alphabet(seed, 3 if tier == "quick" else 4)
     res = new_res()
     seen = set()
-    batches = {k: batch_for(k, nf, nd, alpha) for k in ("full", "basis", "singles")}
+    batches = {k: batch_for(k, nf, nd, alpha, nf * nd * fw * dw) for k in ("full", "basis", "singles")}
     batches["small"] = batches["singles"]
     refs = {k: reference(v, fw, dw, circ) for k, v in batches.items() if k != "small"}
     refs["small"] = refs["singles"]
@@ -754,7 +810,7 @@ def run_pair(it):
     if circ:
         E = batches["basis"]
         olist = stored_orders(nd, tier)
-        use = olist if tier == "thorough" else olist[:2]
+        use = olist if (tier == "thorough" and nd <= 16) else olist[:2]
         for oi, (oname, order) in enumerate(use):
             cfg = dict(base, order=order)
             r1 = None
